@@ -50,6 +50,7 @@ import (
 	"os"
 	"slices"
 	"sync"
+	"sync/atomic"
 	"time"
 
 	"github.com/ovh/kmip-go"
@@ -370,6 +371,7 @@ type Client struct {
 	dialer            DialerFunc
 	middlewares       []Middleware
 	addr              string
+	closed            atomic.Bool
 }
 
 // Dial establishes a connection to the KMIP server at the specified address using the provided options.
@@ -484,7 +486,13 @@ func (c *Client) Addr() string {
 // Close terminates the client's connection and releases any associated resources.
 // It returns an error if the connection could not be closed.
 func (c *Client) Close() error {
-	return c.conn.Close()
+	c.closed.Store(true)
+	conn := c.conn
+	if conn == nil {
+		// No live connection (e.g. the last reconnection attempt was refused).
+		return nil
+	}
+	return conn.Close()
 }
 
 func (c *Client) reconnect(ctx context.Context) error {
@@ -509,6 +517,9 @@ func (c *Client) reconnect(ctx context.Context) error {
 func (c *Client) doRountrip(ctx context.Context, msg *kmip.RequestMessage) (*kmip.ResponseMessage, error) {
 	c.lock.Lock()
 	defer c.lock.Unlock()
+	if c.closed.Load() {
+		return nil, net.ErrClosed
+	}
 	if c.conn == nil || c.conn.broken() {
 		if err := c.reconnect(ctx); err != nil {
 			return nil, err
